@@ -7,7 +7,10 @@ VERIF = Path(__file__).resolve().parent.parent
 PY = "/venv/bin/python"
 
 # one fragment per property: harness/manifest/Cxx.json = {"design": "5.12", "text": ..., "note": ..., "technique": ...}
-CHECKS = {p.stem: json.loads(p.read_text()) for p in sorted((VERIF / "harness" / "manifest").glob("C*.json"))}
+import os
+ONLY = [x for x in os.environ.get("ONLY", "").split(",") if x]   # integrator: restrict to finished properties
+CHECKS = {p.stem: json.loads(p.read_text()) for p in sorted((VERIF / "harness" / "manifest").glob("C*.json"))
+          if not ONLY or p.stem in ONLY}
 
 ALL = [f"C{i:02d}" for i in range(1, 21)]
 PENDING_REASON = "check not built yet in this revision (planned, see DESIGN.md section 9); no claim is made until its model, theorems and correspondence exist"
@@ -20,6 +23,8 @@ def aggregate_findings():
                        "fixed: repaired by a fix: commit in /repo - suppresses nothing; the witness cases run first in every check.",
            "open": [], "fixed": [], "fix_commits": []}
     for p in sorted((VERIF / "findings").glob("C*.json")):
+        if ONLY and p.stem not in ONLY:
+            continue
         d = json.loads(p.read_text())
         for k in ("open", "fixed"):
             for f in d.get(k, []):
